@@ -88,3 +88,120 @@ Proof.
   intros. rewrite transform_is_weighted_mass by (simpl; auto).
   simpl. unfold iso_kernel, mass, persistence_nat. simpl. ring.
 Qed.
+
+(* =============================================================================================
+   Cross-property glue (lemmas in Proofs/ImageGlueP.v).
+   C12 -> C04: the mesh, an INPUT of the transform model above, is here the mesh of a state of
+   C12's imager state machine (Model/ImagerM.v, exact-rational instance QNum), read over R with Q2R.
+   C13 -> C04: Kgauss, a universally quantified argument above, is here the kernel MODEL of
+   images_kernels.gaussian (Model/KernelM.v) as images.py calls it (Model/ImageKernelM.v). *)
+From Coq Require Import ZArith QArith Qreals Lia.
+From Persim Require Model.ImagerM Proofs.ImagerP Model.KernelM Model.ImageKernelM Proofs.ImageGlueP.
+Open Scope R_scope.
+
+(* H1: for EVERY consistent imager state (C12: [Inv s], which holds after the repaired constructor and
+   any history of setters / fits - imager_history_inv), every kernel configuration, Phi, Kgauss, weight,
+   skew flag and diagram: the image _transform computes on the state's two meshes has the shape the
+   state reports (= its resolution), and pixel (i,j) is the sum over the points of weight * kernel mass
+   of the SQUARE [blo + i ps, blo + (i+1) ps] x [plo + j ps, plo + (j+1) ps], ps the configured pixel
+   size - for all i < res_b, j < res_p *)
+Theorem image_on_imager_state : forall s : ImagerM.state ImagerM.QNum, ImagerP.Inv s ->
+  forall Phi Kgauss skew w k dgm,
+  let ps := Q2R (ImagerM.psz s) in let b0 := Q2R (ImagerM.blo s) in let p0 := Q2R (ImagerM.plo s) in
+  let img := transform_one Phi Kgauss skew w k (map Q2R (ImagerM.bpnts s)) (map Q2R (ImagerM.ppnts s)) dgm in
+  ImagerM.shape ImagerM.QNum s = Some (ImagerM.resw s, ImagerM.resh s) /\
+  Z.of_nat (length img) = ImagerM.resw s /\
+  Forall (fun r => Z.of_nat (length r) = ImagerM.resh s) img /\
+  forall i j, (Z.of_nat i < ImagerM.resw s)%Z -> (Z.of_nat j < ImagerM.resh s)%Z ->
+    nth j (nth i img []) 0
+    = sumR (map (fun pt => w (fst pt) (snd pt) *
+                           mass (eff_kernel Phi Kgauss k (fst pt) (snd pt))
+                                (b0 + INR i * ps, b0 + (INR i + 1) * ps) (p0 + INR j * ps, p0 + (INR j + 1) * ps))
+                (to_birth_pers skew dgm)).
+Proof. exact ImageGlueP.image_on_state. Qed.
+Print Assumptions image_on_imager_state.
+
+(* H2: the same phrased over a history: construct with any pixel size > 0 and ordered ranges, apply ANY
+   list of valid operations (range assignments lo <= hi, pixel sizes > 0, fits), then transform *)
+Theorem history_then_transform : forall bl bh pl ph ps0 (h : list (ImagerM.op ImagerM.QNum)),
+  (0 < ps0)%Q -> (bl <= bh)%Q -> (pl <= ph)%Q -> Forall ImagerP.op_ok h ->
+  forall Phi Kgauss skew w k dgm,
+  let s := ImagerM.run ImagerM.QNum (ImagerM.ctor ImagerM.QNum bl bh pl ph ps0) h in
+  let ps := Q2R (ImagerM.psz s) in let b0 := Q2R (ImagerM.blo s) in let p0 := Q2R (ImagerM.plo s) in
+  let img := transform_one Phi Kgauss skew w k (map Q2R (ImagerM.bpnts s)) (map Q2R (ImagerM.ppnts s)) dgm in
+  ImagerM.shape ImagerM.QNum s = Some (ImagerM.resw s, ImagerM.resh s) /\
+  Z.of_nat (length img) = ImagerM.resw s /\
+  Forall (fun r => Z.of_nat (length r) = ImagerM.resh s) img /\
+  forall i j, (Z.of_nat i < ImagerM.resw s)%Z -> (Z.of_nat j < ImagerM.resh s)%Z ->
+    nth j (nth i img []) 0
+    = sumR (map (fun pt => w (fst pt) (snd pt) *
+                           mass (eff_kernel Phi Kgauss k (fst pt) (snd pt))
+                                (b0 + INR i * ps, b0 + (INR i + 1) * ps) (p0 + INR j * ps, p0 + (INR j + 1) * ps))
+                (to_birth_pers skew dgm)).
+Proof. exact ImageGlueP.image_after_history. Qed.
+Print Assumptions history_then_transform.
+
+(* non-vacuity of H1 / H2: a valid history whose final state has 5 x 2 pixels to characterise ... *)
+Example history_then_transform_hyp_satisfiable :
+  (0 < 1 # 2)%Q /\ (0 <= 1)%Q /\
+  Forall ImagerP.op_ok [@ImagerM.SetBirth ImagerM.QNum 0%Q (3 # 2)%Q; @ImagerM.SetPixel ImagerM.QNum (1 # 4)%Q;
+                        @ImagerM.Fit ImagerM.QNum (((0, 1), [(5 # 4, 7 # 4)]), [])%Q true] /\
+  let s := ImagerM.run ImagerM.QNum (ImagerM.ctor ImagerM.QNum 0 1 0 1 (1 # 2))%Q
+             [@ImagerM.SetBirth ImagerM.QNum 0%Q (3 # 2)%Q; @ImagerM.SetPixel ImagerM.QNum (1 # 4)%Q;
+              @ImagerM.Fit ImagerM.QNum (((0, 1), [(5 # 4, 7 # 4)]), [])%Q true] in
+  (ImagerM.resw s, ImagerM.resh s) = (5, 2)%Z.
+Proof.
+  split; [reflexivity|]. split; [discriminate|]. split.
+  - repeat constructor; unfold Qlt, Qle; cbn; lia.
+  - vm_compute. reflexivity.
+Qed.
+
+(* ... and H1 used on the constructor's 2 x 2 state: pixel (0,1) of a one-point diagram under any
+   kernel K passed as a callable is w * K-mass of the square [0,1/2] x [1/2,1] *)
+Example image_on_imager_state_instance : forall Phi Kgauss w K b p,
+  let s := (ImagerM.ctor ImagerM.QNum 0 1 0 1 (1 # 2))%Q in
+  nth 1 (nth 0 (transform_one Phi Kgauss false w (OtherKernel K)
+                   (map Q2R (ImagerM.bpnts s)) (map Q2R (ImagerM.ppnts s)) [(b, p)]) []) 0
+  = w b p * mass (K b p) (0, 1 / 2) (1 / 2, 1).
+Proof.
+  intros Phi Kgauss w K b p s.
+  assert (HI : ImagerP.Inv s) by (apply ImagerP.ctor_inv; unfold Qlt, Qle; cbn; lia).
+  destruct (image_on_imager_state s HI Phi Kgauss false w (OtherKernel K) [(b, p)]) as (_ & _ & _ & P).
+  rewrite (P 0%nat 1%nat) by (vm_compute; reflexivity).
+  assert (E0 : Q2R (ImagerM.blo s) = 0).
+  { transitivity (Q2R 0); [apply Qeq_eqR; vm_compute; reflexivity|apply ImageGlueP.Q2R_0g]. }
+  assert (E1 : Q2R (ImagerM.plo s) = 0).
+  { transitivity (Q2R 0); [apply Qeq_eqR; vm_compute; reflexivity|apply ImageGlueP.Q2R_0g]. }
+  assert (E2 : Q2R (ImagerM.psz s) = 1 / 2) by (unfold Q2R; simpl; lra).
+  rewrite E0, E1, E2. cbn [to_birth_pers map sumR fold_right eff_kernel fst snd INR].
+  replace (0 + 0 * (1 / 2)) with 0 by lra. replace (0 + (0 + 1) * (1 / 2)) with (1 / 2) by lra.
+  replace (0 + 1 * (1 / 2)) with (1 / 2) by lra. replace (0 + (1 + 1) * (1 / 2)) with 1 by lra. lra.
+Qed.
+
+(* H3 (C13 -> C04): the hypothesis of the last part of fast_path_eq_general, discharged for the kernel model
+   of images_kernels.gaussian (both readings of line 173: thr = -100 intended, thr = 100 pinned; C13:
+   gaussian_zero_cov_is_product): at zero covariance the model IS the product form, for EVERY Phi, so
+   with kernel = gaussian the fast path (sigma a scalar, or an isotropic 2x2 matrix) computes exactly the image
+   the general path computes with images_kernels.gaussian at sigma = [[s,0],[0,s]].  No hypothesis is left. *)
+Theorem fast_path_eq_general_kernelM : forall thr Phi skew w s bp pp dgm,
+  (forall mb mp x y, ImageKernelM.gaussian_kernelM_gen thr Phi s 0 s mb mp x y
+                     = Phi ((x - mb) / sqrt s) * Phi ((y - mp) / sqrt s)) /\
+  transform_fast Phi w s bp pp (to_birth_pers skew dgm)
+    = transform_general w (ImageKernelM.gaussian_kernelM_gen thr Phi s 0 s) bp pp (to_birth_pers skew dgm) /\
+  transform_one Phi (ImageKernelM.gaussian_kernelM_gen thr Phi) skew w (GaussScalar s) bp pp dgm
+    = transform_general w (ImageKernelM.gaussian_kernelM_gen thr Phi s 0 s) bp pp (to_birth_pers skew dgm) /\
+  transform_one Phi (ImageKernelM.gaussian_kernelM_gen thr Phi) skew w (GaussMatrix s 0 s) bp pp dgm
+    = transform_general w (ImageKernelM.gaussian_kernelM_gen thr Phi s 0 s) bp pp (to_birth_pers skew dgm).
+Proof. exact ImageGlueP.fast_eq_general_kernelM. Qed.
+Print Assumptions fast_path_eq_general_kernelM.
+
+(* instance: the intended kernel model (gaussian_cdf = gaussian_cdf_gen (-100)); scalar sigma 2 and the
+   matrix [[2,0],[0,2]] give the same image *)
+Example fast_path_eq_general_kernelM_instance : forall Phi w bp pp dgm,
+  transform_one Phi (ImageKernelM.gaussian_kernelM Phi) true w (GaussScalar 2) bp pp dgm
+  = transform_one Phi (ImageKernelM.gaussian_kernelM Phi) true w (GaussMatrix 2 0 2) bp pp dgm.
+Proof.
+  intros. rewrite ImageGlueP.gaussian_kernelM_intended.
+  destruct (fast_path_eq_general_kernelM (-100) Phi true w 2 bp pp dgm) as (_ & _ & A & B).
+  rewrite A, B. reflexivity.
+Qed.
